@@ -221,7 +221,10 @@ def run(ctx, chk, tier="quick"):
             if isinstance(n, ast.Assign) and isinstance(n.targets[0], ast.Name) and n.targets[0].id == state \
                     and not any(a is loop for a in _anc(n)) and isinstance(n.value, ast.Constant):
                 init = n
-        chk.ob("C04.O1", init is not None and init.value.value is True, where_of(f, init or loop),
+        if init is None:
+            chk.indeterminate("C04.O1", where_of(f, loop), "the initial value of the loop-carried flag `%s` is not a constant assigned before the loop: the state variable is not identified" % state)
+        else:
+          chk.ob("C04.O1", init is not None and init.value.value is True, where_of(f, init or loop),
                "initial state %s = %s" % (state, ast.unparse(init.value) if init is not None else "unset"),
                "True: before any rain has been seen the record is 'unexplained'", key="get_mystery_jump_mask|initial-state",
                why="a record that starts dry would otherwise yield a recession interval with no rain before it")
